@@ -699,6 +699,90 @@ def r08_7(prog, rep):
         rep.broken_("rule=R08.7 expected >=1 (year, month) pair computed from a common index, found %d" % n)
 
 
+def _add_walk(prog, bas, addms):
+    """What echs_instant_add() returns for one instant (y, m, d, H, M, S, ms) and one duration in ms, by a value-fixed walk of its CFG:
+    the members of the instant and the duration are constants, the month-length helper is its table (R08.2 ties that table to the
+    calendar).  Nothing of echse runs."""
+    from ..absw import AbsWalk, eval_in
+    f = prog.fn("echs_instant_add", "instant.c")
+    cfg = f.cfg
+    bp, ap = f.params[0]["n"], f.params[1]["n"]
+    FL = ("y", "m", "d", "H", "M", "S", "ms")
+    init = {"%s.%s" % (bp, k_): v_ for k_, v_ in zip(FL, bas)}
+    init[ap + ".d"] = addms
+    resv = [l_["n"] for l_ in f.locals if "echs_instant" in (l_.get("t") or "")]
+    tracked = {l_["n"] for l_ in f.locals} | {"%s.%s" % (r_, k_) for r_ in resv for k_ in FL}
+
+    def fld(store, a, k_):
+        a = strip_casts(cfg.resolve(a))
+        return store.get("%s.%s" % (lv(a), k_))
+
+    def call_eval(c, store):
+        nm = c.get("fn")
+        if nm == "echs_instant_all_day_p":
+            v = fld(store, c["a"][0], "H")
+            return None if v is None else int(v == 0xff)
+        if nm == "echs_instant_all_sec_p":
+            v = fld(store, c["a"][0], "ms")
+            return None if v is None else int(v == 0x3ff)
+        if nm in ("__get_mdays", "__get_ndom"):
+            y = eval_in(store, cfg.resolve(c["a"][0]), f, call_eval)
+            m = eval_in(store, cfg.resolve(c["a"][1]), f, call_eval)
+            if y is None or m is None or not 0 <= m <= 12:
+                return None
+            return ML[m] + (1 if m == 2 and y % 4 == 0 else 0)
+        return None
+    outs = []
+
+    def effect(b, i, x, store):
+        if isinstance(x, dict) and x.get("k") == "ret" and x.get("e") is not None:
+            e = strip_casts(cfg.resolve(x["e"]))
+            outs.append(tuple(store.get("%s.%s" % (lv(e), k_)) for k_ in FL))
+        return None
+    AbsWalk(f, tracked, init=init, effect=effect, call_eval=call_eval, max_states=20000).run()
+    if len(set(outs)) != 1:
+        raise AnalysisBroken("echs_instant_add(%s, %d): no single result (%s)" % (bas, addms, outs[:2]))
+    return outs[0]
+
+
+def r08_9(prog, rep, rid="R08.9"):
+    """Adding a duration carries days into months and months into years; each month on the way has the length it has in the year it
+    lies in.  echs_instant_add() is walked for start dates around year ends and leap days with durations from a second to four years,
+    timed and all-day, both directions, and compared with the calendar."""
+    f = prog.fn("echs_instant_add", "instant.c")
+    starts = [(2019, 12, 15), (2020, 12, 15), (2019, 1, 31), (2020, 2, 28), (2020, 2, 29), (2020, 3, 1), (2019, 3, 1), (1999, 12, 31),
+              (2023, 1, 1), (2024, 1, 1), (1904, 2, 29), (2095, 12, 31)]
+    days = [1, 28, 29, 31, 59, 60, 80, 365, 366, 400, 1461]
+    n = 0
+    bad = []
+    DAY = 86400000
+    for (y, m, d) in starts:
+        for dd in days:
+            for sg in (1, -1):
+                for kind in ("timed", "allday", "timed+12h", "timed-12h1ms"):
+                    if kind == "allday":
+                        bas, ms = (y, m, d, 0xff, 0, 0, 0), sg * dd * DAY
+                    else:
+                        bas = (y, m, d, 12, 30, 15, 500)
+                        ms = sg * dd * DAY + {"timed": 0, "timed+12h": 43200000, "timed-12h1ms": -45015501}[kind]
+                    t0 = datetime.datetime(y, m, d) if kind == "allday" else datetime.datetime(y, m, d, 12, 30, 15, 500000)
+                    t1 = t0 + datetime.timedelta(milliseconds=ms)
+                    if not 1902 <= t1.year <= 2098:
+                        continue
+                    want = (t1.year, t1.month, t1.day) + ((0xff, 0, 0, 0) if kind == "allday" else (t1.hour, t1.minute, t1.second, t1.microsecond // 1000))
+                    got = _add_walk(prog, bas, ms)
+                    n += 1
+                    if got != want:
+                        bad.append(("%04d-%02d-%02d %s %+d ms" % (y, m, d, kind, ms), got, want))
+    key = "echs_instant_add/agrees-with-the-calendar"
+    if bad:
+        rep.fail(rid, key, f.loc(), "%d of %d additions come out wrong, e.g. %s" % (len(bad), n, "; ".join(
+            "%s gives %s instead of %s" % (c_, "%s-%s-%s" % tuple(g_[:3]) if g_ and None not in g_[:3] else g_, "%04d-%02d-%02d" % w_[:3]) for c_, g_, w_ in bad[:3])),
+            {"examples": [[c_, list(g_) if g_ else None, list(w_)] for c_, g_, w_ in bad[:20]]})
+    else:
+        rep.ok(rid, key, f.loc(), "%d additions across year ends and leap days agree with the calendar" % n)
+
+
 def run(prog, rep, tier, snap):
     rep.rule("R08.1", "64-bit evaluation of millisecond quantities", 6)
     rep.call(r08_1, prog, rep)
@@ -717,4 +801,6 @@ def run(prog, rep, tier, snap):
     from ..rules import state
     rep.rule("R08.8", "the time conversions carry no state from one call to the next", 1)
     rep.call(state.no_carried_state, prog, rep, "R08.8", "time")
+    rep.rule("R08.9", "echs_instant_add() agrees with the calendar across year ends and leap days (value-fixed walk)", 1)
+    rep.call(r08_9, prog, rep)
 READY = True
